@@ -11,6 +11,8 @@ META = {
     "design_ref": "DESIGN.md §4 C20",
 }
 
+DEV = "D_err_exceeds_max_validity"
+
 LABELS = ["tick", "evict", "bypass", "miss", "expired", "exact", "ad", "do",
           "rd:exact", "rd:ad", "rd:do"]
 
@@ -23,6 +25,7 @@ MUTANTS = [
     ("M_derived_now", "P_AgedExactly", "MC_Cache"),
     ("M_neg_posbound", "P_BoundsRespected", "MC_Cache_classes"),
     ("M_first_auth", "P_BoundsRespected", "MC_Cache_classes"),
+    ("M_deleg_nomin", "P_NeverStale", "MC_Cache_maxval"),
     ("M_tc_cached", "P_BoundsRespected", "MC_Cache_classes"),
     ("M_err_forever", "P_BoundsRespected", "MC_Cache_classes"),
     ("M_ad_leak_do", "P_NoDnssecLeak", "MC_Cache"),
@@ -66,12 +69,12 @@ def _run(ctx, thorough, tmp_cfgs):
     if os.environ.get("C20_BINDINGS_ONLY"):
         # development aid for mutation trials of the real code: skip the
         # stages that do not touch the real code (never set by bin/check users)
-        _bindings(ctx, thorough)
+        _bindings(ctx, thorough, tmp_cfgs, tag)
         return
-    cfgs = ["MC_Cache", "MC_Cache_classes", "MC_Cache_part"]
+    cfgs = ["MC_Cache", "MC_Cache_classes", "MC_Cache_maxval", "MC_Cache_part"]
     if thorough:
         cfgs = ["MC_Cache", "MC_Cache_thorough", "MC_Cache_classes_thorough",
-                "MC_Cache_part_thorough"]
+                "MC_Cache_maxval", "MC_Cache_part_thorough"]
     for cfg in cfgs:
         base = cfg
         mc = ctx.tlc("MC_Cache", cfg, workers=8, coverage=False,
@@ -85,7 +88,8 @@ def _run(ctx, thorough, tmp_cfgs):
     for l in LABELS:
         ctx.coverage_actions[l] = (1, 1)
     # the invariants have teeth: every seeded mutant of the spec is caught
-    muts = MUTANTS if thorough else MUTANTS[:1] + MUTANTS[2:4] + MUTANTS[5:7]
+    quick_muts = ("M_nostrip", "M_expiry_secs", "M_first_auth", "M_deleg_nomin")
+    muts = MUTANTS if thorough else [m for m in MUTANTS if m[0] in quick_muts]
     for mut, prop, base in muts:
         cfg = "%s_m%s_%s" % (base, tag, mut)
         tmp_cfgs.append(_cfg_variant(ctx, base, cfg, {"Mut": '= {"%s"}' % mut}))
@@ -96,10 +100,62 @@ def _run(ctx, thorough, tmp_cfgs):
                                  % (mut, prop, r.violated))
         ctx.selftest("spec mutant %s violates %s" % (mut, prop), True)
 
-    _bindings(ctx, thorough)
+    # the named deviation is what it is claimed to be: with it the model
+    # breaks NeverStale (and nothing else), without it (above) it does not
+    cfg = "MC_Cache_maxval_d%s" % tag
+    tmp_cfgs.append(_cfg_variant(ctx, "MC_Cache_maxval", cfg, {"Dev": '= {"%s"}' % DEV}))
+    r = ctx.tlc("MC_Cache", cfg, workers=4, coverage=False, label="deviation-" + DEV,
+                count=False, timeout=1200)
+    if r.violated != "P_NeverStale":
+        raise vlib.ToolError("deviation %s does not violate P_NeverStale in the model (%s)"
+                             % (DEV, r.violated))
+
+    _bindings(ctx, thorough, tmp_cfgs, tag)
 
 
-def _bindings(ctx, thorough):
+def _dev_cases(ctx, tmp_cfgs, tag):
+    """Transport errors under a configuration with max_validity <
+    transport_failure_duration: the same behaviours generated from the ideal
+    model (exp) and from the model with the deviation (dev), joined on the
+    operations performed."""
+    a = os.path.join(ctx.work, "err-ideal.ndjson")
+    g = ctx.tlc("Gen_Cache", "Gen_Cache_err", workers=8, coverage=False, label="gen-err-ideal",
+                cases_to=a, count=False)
+    ctx.require_ok(g, "Gen_Cache_err")
+    cfg = "Gen_Cache_err_d%s" % tag
+    path = _cfg_variant(ctx, "Gen_Cache_err", cfg, {"Dev": '= {"%s"}' % DEV})
+    tmp_cfgs.append(path)
+    t = open(path).read().replace("INVARIANT GProp\n", "")
+    open(path, "w").write(t)
+    b = os.path.join(ctx.work, "err-dev.ndjson")
+    g2 = ctx.tlc("Gen_Cache", cfg, workers=8, coverage=False, label="gen-err-dev",
+                 cases_to=b, count=False)
+    ctx.require_ok(g2, "Gen_Cache_err (with deviation)")
+
+    def key(c):
+        ops = [{k: v for k, v in op.items() if k != "via"} for op in c["in"]["ops"]]
+        return json.dumps({"cfg": c["in"]["cfg"], "ops": ops}, sort_keys=True)
+    dev = {}
+    for c in vlib.read_ndjson(b):
+        dev[key(c)] = c["exp"]
+    out = []
+    ndiff = 0
+    for c in vlib.read_ndjson(a):
+        d = dev.get(key(c))
+        if d is None:
+            raise vlib.ToolError("deviation generator: behaviour sets differ")
+        if d != c["exp"]:
+            c["dev"] = {DEV: d}
+            ndiff += 1
+        out.append(c)
+    if ndiff == 0 or len(out) != len(dev):
+        raise vlib.ToolError("deviation generator: %d cases, %d differ" % (len(out), ndiff))
+    p = os.path.join(ctx.work, "cases-err.ndjson")
+    vlib.write_ndjson(p, out)
+    return p
+
+
+def _bindings(ctx, thorough, tmp_cfgs, tag):
     # 2. S->I: generated behaviours on the real cache --------------------
     cases = os.path.join(ctx.work, "cases.ndjson")
     gen = ctx.tlc("Gen_Cache", "Gen_Cache", workers=8, coverage=False, label="gen-exh",
@@ -132,6 +188,17 @@ def _bindings(ctx, thorough):
     if gen2.ncases < 1000:
         raise vlib.ToolError("generator produced too few behaviours")
     ctx.replay_cases("replay_cache", cases2, label="cache-classes")
+    # TTLs above every bound, max_validity below / above the class bounds,
+    # clock steps just below / above max_validity
+    cases3 = os.path.join(ctx.work, "cases-maxval.ndjson")
+    gen3 = ctx.tlc("Gen_Cache", "Gen_Cache_maxval", workers=8, coverage=False,
+                   label="gen-maxval", cases_to=cases3, count=False)
+    ctx.require_ok(gen3, "Gen_Cache_maxval")
+    if gen3.ncases < 1000:
+        raise vlib.ToolError("generator produced too few behaviours")
+    ctx.replay_cases("replay_cache", cases3, label="cache-maxval")
+    # cached transport failures against max_validity (named deviation)
+    ctx.replay_cases("replay_cache", _dev_cases(ctx, tmp_cfgs, tag), label="cache-err-maxval")
     # long random behaviours over the large constants
     sims = [("Gen_Cache_sim", 3000 if thorough else 400, 14),
             ("Gen_Cache_sim2", 3000 if thorough else 300, 24 if thorough else 16)]
@@ -151,7 +218,7 @@ def _bindings(ctx, thorough):
         ctx.replay_cases("replay_cache", simf, label="cache-" + cfgname[10:])
 
     # 3. I->S: recorded histories of the real cache validated by TLC ------
-    kinds = ["default", "mixed", "min", "random", "random", "default"]
+    kinds = ["mixed", "tight", "default", "min", "random", "random"]
     n_traces = 6 if thorough else 2
     steps = 3000 if thorough else 1500
     for i in range(n_traces):
@@ -223,6 +290,18 @@ def _corrupt_trace(src, dst):
                 break
     open(dst, "w").write("\n".join(lines) + "\n")
     return done
+
+
+def explain(ctx, dev):
+    """bin/check C20 --explain D_err_exceeds_max_validity: TLC's counterexample."""
+    tag = "%d" % os.getpid()
+    path = _cfg_variant(ctx, "MC_Cache_maxval", "MC_Cache_maxval_d" + tag, {"Dev": '= {"%s"}' % dev})
+    try:
+        r = ctx.tlc("MC_Cache", "MC_Cache_maxval_d" + tag, workers=4, coverage=False,
+                    label="explain", count=False)
+        print(open(r.log).read()[-6000:])
+    finally:
+        os.remove(path)
 
 
 def replay(ctx, case):
